@@ -18,7 +18,7 @@ import (
 )
 
 func TestMain(m *testing.M) {
-	ev.Note("rule", "C09: rapid-generated scopes and whole plugin schemas (steps with input scope, 1-3 outputs incl. error outputs, signal handlers and emitters whose data scopes contain references, displays) over every feature the meta-schema has a row for: all describable kinds, units (built-in and generated), enums with display data, defaults, all presence rules, disabled + reason, examples, id-unenforced, nested scopes, self-referential references, one-of members object/ref/scope. Oracle: SelfSerialize succeeds; UnserializeScope / UnserializeSchema of the description succeeds and the result is usable as returned; describing the rebuilt schema gives a description deep-equal to the first; the same after the description went through CBOR and through YAML; original and rebuilt agree on accept/reject of generated valid and mutated inputs (and on the unserialized value when the original has no struct mapping). Non-trivial: the schema uses >= 3 distinct optional meta-schema features and contains a reference; distinct by schema.")
+	ev.Note("rule", "C09: rapid-generated scopes and whole plugin schemas (steps with input scope, 1-3 outputs incl. error outputs, signal handlers and emitters whose data scopes contain references, displays) over every feature the meta-schema has a row for: all describable kinds, units (built-in and generated), enums with display data, defaults, all presence rules, disabled + reason, examples, id-unenforced, nested scopes, self-referential references, one-of members object/ref/scope. Oracle: SelfSerialize succeeds; UnserializeScope / UnserializeSchema of the description succeeds and the result is usable as returned; so does the meta-schema route DescribeScope().Unserialize + ApplySelf; describing the rebuilt schema gives a description deep-equal to the first; the same after the description went through CBOR and through YAML; original and rebuilt agree on accept/reject of generated valid and mutated inputs (and on the unserialized value when the original has no struct mapping). Non-trivial: the schema uses >= 3 distinct optional meta-schema features and contains a reference; distinct by schema.")
 	ev.RegisterReplay("scope", func(t *testing.T, raw json.RawMessage) {
 		var c ScopeCase
 		if err := json.Unmarshal(raw, &c); err != nil {
@@ -200,6 +200,29 @@ func runScope(c ScopeCase) string {
 			return fmt.Sprintf("after the description was %s, describing the rebuilt schema differs: %s\nschema: %s", label, df, oracle.SpecJSON(c.Spec))
 		}
 	}
+	// the other public route from a description back to a schema: the meta-schema scope itself (DescribeScope) turns
+	// the description into a ScopeSchema, and the caller links it (ApplySelf) - the route a caller must take when it
+	// wants to apply external namespaces itself
+	var viaMeta *schema.ScopeSchema
+	if p := oracle.Safely(func() {
+		var v any
+		if v, err = schema.DescribeScope().Unserialize(d); err == nil {
+			viaMeta = v.(*schema.ScopeSchema)
+			viaMeta.ApplySelf()
+		}
+	}); p != nil {
+		return fmt.Sprintf("DescribeScope().Unserialize(description) + ApplySelf panicked: %v\nschema: %s", p, oracle.SpecJSON(c.Spec))
+	}
+	if err != nil {
+		return fmt.Sprintf("the description is not accepted by the meta-schema scope DescribeScope(): %v\nschema: %s", err, oracle.SpecJSON(c.Spec))
+	}
+	var dm any
+	if p := oracle.Safely(func() { dm, err = viaMeta.SelfSerialize() }); p != nil || err != nil {
+		return fmt.Sprintf("the schema rebuilt through DescribeScope() cannot describe itself: %v %v\nschema: %s", p, err, oracle.SpecJSON(c.Spec))
+	}
+	if df := diff(d, dm, ""); df != "" {
+		return fmt.Sprintf("describe -> rebuild through DescribeScope() -> describe is not a fixed point: %s\nschema: %s", df, oracle.SpecJSON(c.Spec))
+	}
 	// behavioural equivalence
 	structs := hasStruct(c.Spec)
 	for _, in := range c.Inputs {
@@ -207,6 +230,16 @@ func runScope(c ScopeCase) string {
 		var e1, e2 error
 		if p := oracle.Safely(func() { u1, e1 = sc.Unserialize(in.Go()) }); p != nil {
 			continue // C04
+		}
+		if !structs {
+			var u3 any
+			var e3 error
+			if p := oracle.Safely(func() { u3, e3 = viaMeta.Unserialize(in.Go()) }); p != nil {
+				return fmt.Sprintf("the schema rebuilt through DescribeScope() panicked on %s where the original returned (%s, %v): %v\nschema: %s", in, short(u1), e1, p, oracle.SpecJSON(c.Spec))
+			}
+			if (e1 == nil) != (e3 == nil) || (e1 == nil && !val.Equal(u1, u3, val.Opts{})) {
+				return fmt.Sprintf("original and schema rebuilt through DescribeScope() differ on %s: original (%s, %v), rebuilt (%s, %v)\nschema: %s", in, short(u1), e1, short(u3), e3, oracle.SpecJSON(c.Spec))
+			}
 		}
 		if p := oracle.Safely(func() { u2, e2 = r.Unserialize(in.Go()) }); p != nil {
 			return fmt.Sprintf("the rebuilt schema panicked on %s where the original returned (%s, %v): %v\nschema: %s", in, short(u1), e1, p, oracle.SpecJSON(c.Spec))
